@@ -66,9 +66,16 @@ def literal_atom(atom, pol) -> Optional[Tuple[str, str]]:
     return None
 
 
-def predicate_atom(atom, pol) -> Optional[Tuple[str, bool]]:
+def predicate_atom(atom, pol, fa=None, n=None) -> Optional[Tuple[str, bool]]:
     if isinstance(atom, ast.Call) and call_attr(atom) in PREDICATES and isinstance(atom.func, ast.Attribute):
         return call_attr(atom), pol
+    # unprovided(V) where V is the result of a parse / default call: "that call returned the sentinel"
+    if fa is not None and isinstance(atom, ast.Call) and call_attr(atom) == "unprovided" and len(atom.args) == 1 \
+            and isinstance(atom.args[0], ast.Name):
+        os_ = prov(fa).of_name(n, atom.args[0].id)
+        callees = {o.text.split(".")[-1] for o in os_ if o.kind == "call"}
+        if os_ and all(o.kind == "call" for o in os_) and len(callees) == 1:
+            return f"sentinel({callees.pop()})", pol
     return None
 
 
@@ -182,11 +189,18 @@ def collect_actions(run, f: FuncInfo) -> List[Action]:
             if la:
                 act.literals.add(la)
                 continue
-            pa = predicate_atom(at, p)
+            pa = None
+            for b_ in fa.facts.branch_facts(n):
+                if any(x is at for x, _ in __import__('utverif.cfg', fromlist=['decompose']).decompose(b_.test, b_.polarity)):
+                    pa = predicate_atom(at, p, fa, b_.pred[0][0])
+            if pa is None:
+                pa = predicate_atom(at, p)
             if pa:
                 act.preds[pa[0]] = pa[1]
         # closure: predicate facts imply option classes (read from the predicate's own source)
         for pn, pv in list(act.preds.items()):
+            if pn not in PREDICATES:
+                continue
             for k, v in predicate_summary(run, pn, pv).items():
                 act.options[k] = act.options.get(k, FULL) & v
         if name == "store:extra":
@@ -351,8 +365,129 @@ def r06c(run, pd: FuncInfo, A: FuncInfo, B: FuncInfo):
               construct="params count checks", message="the params count checks are not shared by both strategies")
 
 
+def r06d(run, A: FuncInfo, B: FuncInfo):
+    """consumed-input bookkeeping: (i) the key filter of the extra-key pass covers *every* alias of a consumed field;
+    (ii) the record of consumed inputs is updated whenever parse_value is called, independent of its outcome;
+    (iii) absence is decided on inputs, not on parse results"""
+    pp = run.repo.func("utype.parser.func", "FunctionParser.parse_params")
+    for f in (A, B, pp):
+        fa = analysis(f)
+        pv = [(n, c) for n, c in fa.all_calls() if call_attr(c) == "parse_value"]
+        # sets/dicts tested by membership to skip keys / fields
+        for n, c in fa.all_calls():
+            if call_attr(c) != "parse_addition":
+                continue
+            for a, p in fa.facts.atoms_at(n):
+                if isinstance(a, ast.Compare) and isinstance(a.ops[0], ast.In) and not p \
+                        and isinstance(a.comparators[0], ast.Name):
+                    setname = a.comparators[0].id
+                    feeds = []
+                    for m in fa.cfg.nodes:
+                        for c2 in fa.calls_at(m):
+                            if isinstance(c2.func, ast.Attribute) and unparse(c2.func.value) == setname \
+                                    and c2.func.attr in ("add", "update", "append", "extend"):
+                                feeds.append(c2)
+                    ok = bool(feeds) and all(c2.func.attr in ("update", "extend") and c2.args and
+                                             unparse(c2.args[0]).endswith(".all_aliases") for c2 in feeds)
+                    run.check("R06d", f, f"the extra-key filter `{setname}` is fed with every alias of a consumed field", ok,
+                              construct=f"extra-key filter {setname} fed partially",
+                              message=f"{f.qualname}: `{setname}` (keys that are not extra) is fed by "
+                                      + ", ".join(f"`{unparse(c2)[:50]}`" for c2 in feeds)
+                                      + " instead of all aliases of each consumed field",
+                              necessity="a field given under two equal aliases leaves the spare alias as an 'extra' key: "
+                                        "kept / rejected by this strategy, silently consumed by the other")
+    # (ii) bookkeeping precedes parsing
+    book = {A.ref: None, B.ref: None, pp.ref: "parsed_keys"}
+    for f in (A, B, pp):
+        fa = analysis(f)
+        pv = [(n, c) for n, c in fa.all_calls() if call_attr(c) == "parse_value"]
+        # candidates: local containers written in the same loop with the field name / aliases and read in a guard
+        cands = set()
+        for n in fa.cfg.nodes:
+            if n.kind == "stmt":
+                for c in fa.calls_at(n):
+                    if isinstance(c.func, ast.Attribute) and isinstance(c.func.value, ast.Name) \
+                            and c.func.attr in ("add", "append", "update") and c.func.value.id in ("parsed_keys", "used_alias"):
+                        cands.add((c.func.value.id, n))
+                if isinstance(n.ast, ast.Assign) and isinstance(n.ast.targets[0], ast.Subscript) \
+                        and unparse(n.ast.targets[0].value) == "provided":
+                    cands.add(("provided", n))
+        for n, c in pv:
+            marks = [m for nm, m in cands if fa.cfg.dominates(m, n)]
+            if not marks:
+                # or every path from the parse to the next iteration passes a mark
+                loop_heads = [m for m in fa.cfg.nodes if m.kind == "iter"]
+                reach = fa.cfg.reach_from_succ(n, kinds=(N,), avoid=[m for nm, m in cands])
+                marks_ok = bool(cands) and not any(h in reach for h in loop_heads) and fa.cfg.exit not in reach
+            else:
+                marks_ok = True
+            run.check("R06d", f, f"`{unparse(c)[:40]}`: the input is recorded as consumed whether or not it parses", marks_ok,
+                      construct="consumed-input record depends on the parse outcome",
+                      message=f"{f.qualname}: the record of consumed inputs is not updated on every path through "
+                              f"`{unparse(c)[:50]}` (it is skipped when the value fails to parse)",
+                      necessity="with collected errors a provided-but-invalid item is later treated as not provided: it is "
+                                "reported a second time as absent (or its other alias is parsed instead)", node=c)
+    # (iii) absence decided on inputs
+    for f in (A, B, pp):
+        fa = analysis(f)
+        for n, c in fa.all_calls():
+            if not (is_handle_error_call(c) and c.args and exc_class_of_ctor(c.args[0]) == "AbsenceError"):
+                continue
+            ok = False
+            seen = []
+            for a, p in fa.facts.atoms_at(n):
+                if isinstance(a, ast.Call) and call_attr(a) == "unprovided" and p and a.args:
+                    st = value_state(fa, n, a.args[0])
+                    seen.append(f"unprovided({unparse(a.args[0])}):{'/'.join(sorted(st))}")
+                    if st == {"RAW"} or st == set():
+                        ok = True
+                if isinstance(a, ast.Compare) and isinstance(a.ops[0], ast.In) and not p \
+                        and isinstance(a.comparators[0], ast.Name):
+                    cs = container_state(fa, a.comparators[0].id)
+                    nm = a.comparators[0].id
+                    if not cs:
+                        # a list of names fed by append(field.attname)
+                        appended = [c2 for m in fa.cfg.nodes for c2 in fa.calls_at(m)
+                                    if isinstance(c2.func, ast.Attribute) and unparse(c2.func.value) == nm]
+                        cs = {"RAW"} if appended else set()
+                    seen.append(f"not in {nm}:{'/'.join(sorted(cs))}")
+                    if "RAW" in cs:
+                        ok = True
+            run.check("R06d", f, "AbsenceError is decided on what was provided, not on what parsed", ok,
+                      construct="absence decided on parse results",
+                      message=f"{f.qualname}: the AbsenceError is guarded only by {seen}: a field counts as absent when "
+                              f"its value was provided but failed to parse",
+                      necessity="with collect_errors=True an invalid required field is reported twice, once as absent, "
+                                "and only by this strategy", node=c)
+
+
+NORMALISERS = ("lower", "casefold", "upper")
+
+
+def r06e(run):
+    sites = [("utype.parser.field", "ParserField.setup"), ("utype.parser.base", "BaseParser._get_field_from"),
+             ("utype.parser.base", "BaseParser.get_attname"), ("utype.parser.base", "BaseParser.field_first_parse"),
+             ("utype.parser.base", "BaseParser.generate_aliases"), ("utype.parser.cls", "ClassParser.generate_fields"),
+             ("utype.parser.func", "FunctionParser.generate_fields")]
+    used = {}
+    for mod, q in sites:
+        f = run.repo.func(mod, q)
+        for sub in walk_shallow(f.node):
+            if isinstance(sub, ast.Call) and isinstance(sub.func, ast.Attribute) and sub.func.attr in NORMALISERS \
+                    and not sub.args:
+                used.setdefault(sub.func.attr, []).append(f)
+    run.floor("R06e", "case-normalisation calls in the alias machinery", sum(len(v) for v in used.values()), 6)
+    ok = len(used) == 1
+    run.check("R06e", "utype.parser.base:BaseParser", "declared aliases and input keys are case-normalised the same way",
+              ok, construct="case normalisers differ",
+              message="the alias machinery mixes case normalisers: " + ", ".join(
+                  f"{k}() in {sorted({x.qualname for x in v})}" for k, v in used.items()),
+              necessity="for names where the normalisers differ ('ß', final sigma) the declared alias and the looked-up "
+                        "key no longer meet: one strategy finds the field, the other reports it absent")
+
+
 def check(run):
-    run.rules_run += ["R06a", "R06b", "R06c"]
+    run.rules_run += ["R06a", "R06b", "R06c", "R06d", "R06e"]
     run.explain("C06: the two lookup strategies are discovered as the callees of the strategy conditional in "
                 "parse_data. (R06a) for each action (raise AbsenceError / AliasConflictError / DependenciesAbsenceError, "
                 "parse a field, store parsed, store default for a missing / a no-input field, store an extra key, collect "
@@ -365,3 +500,5 @@ def check(run):
     r06a(run, A, B)
     r06b(run, [A, B])
     r06c(run, pd, A, B)
+    r06d(run, A, B)
+    r06e(run)
